@@ -101,9 +101,14 @@ Qed.
 
 Lemma i_case_nf : forall u a, nf a = true -> nf (i_case u a) = true.
 Proof.
-  intros u a Ha. unfold i_case. cbv zeta. pose proof (nf_devirt a Ha) as Hn.
-  destruct (devirt a); try apply from_runes_spec. simpl in *. apply up_low_ascii. exact Hn.
+  intros u a Ha. unfold i_case. cbv zeta. destruct a as [bs|us|s sc]; simpl in Ha.
+  - simpl. apply up_low_ascii. exact Ha.
+  - apply from_utf16_spec.
+  - destruct (scan s) eqn:E; [apply from_runes_spec|]. apply scan_none in E. simpl. apply up_low_ascii. exact E.
 Qed.
+
+Lemma i_trim_nf : forall m a, nf a = true -> nf (i_trim m a) = true.
+Proof. intros m a Ha. unfold i_trim. cbv zeta. apply substring_spec. exact Ha. Qed.
 
 Lemma i_json_quote_nf : forall a, nf (i_json_quote a) = true.
 Proof.
@@ -136,7 +141,7 @@ Proof.
   - apply i_char_at_nf; auto.
   - apply i_pad_nf; auto.
   - apply i_repeat_nf; auto.
-  - apply from_runes_spec.
+  - apply i_trim_nf; auto.
   - apply i_case_nf; auto.
   - apply new_string_value_spec.
   - apply i_json_quote_nf.
